@@ -36,6 +36,7 @@ func runC08(c *Ctx) {
 	cacheTilesPersistedAlways(c, "R7")
 	hyperOrderingConvention(c, "R5")
 	readerErrOnlyWithEmptyChunk(c, "R5")
+	readerHandsOutFreshPairs(c, "R5")
 	loadStateInstallsWhatItDecodes(c, "R7")
 	startupJoinOnlyWithoutState(c, "R7")
 	_, applyAdd := fsmApplyGuard(newCtx(c.P, c.Prop, c.Tier), "R7")
